@@ -33,6 +33,7 @@ def beh? : Sexp → Option Beh
 def side? : Sexp → Option Side
   | .list [.atom "junk", d] => (nat? d).map .junk
   | .atom "logerr" => some .logerr
+  | .list [.atom "logerr", .atom _] => some .logerr       -- the route by which the error reaches Twisted's log: the same for the runner
   | .atom "dropfailed" => some .dropfailed
   | .atom "flush" => some .flush
   | .atom "expect" => some .expect
